@@ -2,7 +2,10 @@
 from pyvc import components, runner
 from harness import components as hc, models
 
-FUNCS = ['PEPit/tools/expressions_to_matrices.py::expression_to_matrices', 'PEPit/tools/expressions_to_matrices.py::expression_to_sparse_matrices']
+FUNCS = ['PEPit/tools/expressions_to_matrices.py::expression_to_matrices', 'PEPit/tools/expressions_to_matrices.py::expression_to_sparse_matrices',
+         'PEPit/pep.py::PEP.add_constraint', 'PEPit/pep.py::PEP.set_initial_condition', 'PEPit/pep.py::PEP.set_performance_metric',
+         'PEPit/function.py::Function.add_constraint', 'PEPit/block_partition.py::BlockPartition.add_constraint',
+         'PEPit/function.py::Function.set_class_constraints']
 
 
 def tasks(run):
